@@ -153,6 +153,28 @@ impl DecompressorOxide {
         self.tables[table].tree[i] = v;
     }
 
+    /// Install a complete lookup table + tree for Huffman table `t` (whole-array assignment).
+    pub fn verif_load_table(&mut self, t: usize, look_up: &[i16; 1024], tree: &[i16; 576]) {
+        self.tables[t].look_up = *look_up;
+        self.tables[t].tree = *tree;
+    }
+
+    /// Copy of the lookup table and tree of Huffman table `t`.
+    pub fn verif_table_snapshot(&self, t: usize) -> ([i16; 1024], [i16; 576]) {
+        (self.tables[t].look_up, self.tables[t].tree)
+    }
+
+    /// Set the code lengths and table sizes the next `init_tree` will read
+    /// (`lit.len() <= 288`, `dist.len() <= 32`).
+    pub fn verif_set_code_sizes(&mut self, lit: &[u8], dist: &[u8]) {
+        self.code_size_literal = [0; MAX_HUFF_SYMBOLS_0];
+        self.code_size_dist = [0; MAX_HUFF_SYMBOLS_1];
+        self.code_size_literal[..lit.len()].copy_from_slice(lit);
+        self.code_size_dist[..dist.len()].copy_from_slice(dist);
+        self.table_sizes[LITLEN_TABLE] = lit.len() as u16;
+        self.table_sizes[DIST_TABLE] = dist.len() as u16;
+    }
+
     /// A decoder whose every field (arrays included) is an unconstrained
     /// symbolic value, in a valid automaton state.
     #[cfg(kani)]
